@@ -218,7 +218,7 @@ chunk+overhead; distinct by (n, chunked).",
     }],
     randoms: &[RandomDef {
         name: "large_n",
-        cases: |t: Tier| t.pick(3_000, 1_000_000),
+        cases: |t: Tier| t.pick(100_000, 1_000_000),
         tape_len: 8,
         exec: Some(exec_random),
     }],
